@@ -161,3 +161,18 @@ def _integral_scale(desc, sup):
         if low > 0:
             pts = sorted(set([0, low / 4, low, 4 * low] + pts[1:-1])) + [mp.inf]
     return mp.quad(f, pts)
+
+
+def evaluation_slack(desc):
+    """Attainable absolute accuracy of the package's correlation for exponential-integral models next to an integer order s:
+    E_s is evaluated through Gamma(1-s, x) whose recursion divides by (s - n) (accuracy eps/|s-n|); orders within 1e-8 of an
+    integer are evaluated as that integer (accuracy ~ |s-n| <= 1e-8). Zero for every other model / order."""
+    o = desc.get("opt", {}) or {}
+    order = {"Integral": lambda: 1 + o.get("nu", 1.0) / 2, "TPLGaussian": lambda: 1 + o.get("hurst", 0.5),
+             "TPLExponential": lambda: 1 + 2 * o.get("hurst", 0.5), "TPLStable": lambda: 1 + 2 * o.get("hurst", 0.5) / o.get("alpha", 1.5)}.get(desc["name"])
+    if order is None:
+        return 0.0
+    dist = abs(order() - round(order()))
+    if not 0 < dist < 1e-4:
+        return 0.0
+    return 50 * 2.3e-16 / max(dist, 1e-8) + (4e-8 if dist <= 1e-8 else 0.0)
